@@ -163,7 +163,11 @@ class VTask(Task):
         if kind == "jump":
             done = int(stage.context.get("_jump_count", 0) or 0)
             rec["counter"] = done
-            if beh.get("to_seq"):
+            if beh.get("every"):
+                # a stage that asks to jump on every `every`-th of its own iterations (phase `phase`), for ever:
+                # only the engine's limit ends such a loop
+                go = rec["iter"] % int(beh["every"]) == int(beh.get("phase", 0))
+            elif beh.get("to_seq"):
                 # a controller that jumps to a different target on each of its own iterations, then finishes
                 go = rec["iter"] < len(beh["to_seq"])
                 if go:
